@@ -212,3 +212,65 @@ Fixpoint insert (x : entry) (l : list entry) : list entry :=
   end.
 
 Definition isort (l : list entry) : list entry := fold_right insert [] l.
+
+(** * The response side (internal/dnsforward: filterDNSRequest,
+    getCNAMEWithIPs, processFilteringAfterResponse)
+
+    What the client receives for a query whose filtering step is [check_host]
+    (no other filter matches; cache, DNS64, access control are the subject of
+    other properties).  The upstream is any function from the question asked
+    to a response code and answer records. *)
+Inductive rr :=
+  | RR_CNAME (owner target : bytes)
+  | RR_A (owner : bytes) (v : N)
+  | RR_AAAA (owner : bytes) (v : N)
+  | RR_OTHER (owner : bytes) (rrtype : N).
+
+Record response := {
+  rp_qname : bytes;                 (* question section of the delivered message *)
+  rp_rcode : N;
+  rp_answer : list rr;
+  rp_upstream : list (bytes * N)    (* questions put to the upstream, in order *)
+}.
+
+Section Respond.
+  Variable sort : list entry -> list entry.
+  Variable upstream : bytes -> N -> N * list rr.
+
+  (** genAnswersWithIPv4s gives nothing as soon as one address is not IPv4. *)
+  Definition answers_v4 (owner : bytes) (ips : list ip) : list rr :=
+    if forallb ip_is4 ips then map (fun i => RR_A owner (ip_val i)) ips else [].
+
+  Definition answers_v6 (owner : bytes) (ips : list ip) : list rr :=
+    map (fun i => RR_AAAA owner (ip_val i)) (filter (fun i => negb (ip_is4 i)) ips).
+
+  Definition respond (enabled : bool) (tbl : list entry) (qname : bytes) (qt : N)
+    : option response :=
+    match check_host sort enabled tbl qname qt with
+    | None => None
+    | Some r =>
+        match r_reason r with
+        | NotFound =>
+            let '(rc, ans) := upstream qname qt in
+            Some {| rp_qname := qname; rp_rcode := rc; rp_answer := ans;
+                    rp_upstream := [(qname, qt)] |}
+        | Rewritten =>
+            if negb (is_nil (r_canon r)) && is_nil (r_ips r) then
+              (* isRewrittenCNAME: ask for the canonical name, then restore
+                 the question and prepend the CNAME *)
+              let '(rc, ans) := upstream (r_canon r) qt in
+              Some {| rp_qname := qname; rp_rcode := rc;
+                      rp_answer := RR_CNAME qname (r_canon r) :: ans;
+                      rp_upstream := [(r_canon r, qt)] |}
+            else
+              let owner := if is_nil (r_canon r) then qname else r_canon r in
+              let cn := if is_nil (r_canon r) then [] else [RR_CNAME qname (r_canon r)] in
+              let addrs :=
+                if qt =? qA then answers_v4 owner (r_ips r)
+                else if qt =? qAAAA then answers_v6 owner (r_ips r)
+                else [] in
+              Some {| rp_qname := qname; rp_rcode := 0; rp_answer := cn ++ addrs;
+                      rp_upstream := [] |}
+        end
+    end.
+End Respond.
